@@ -15,7 +15,6 @@ NOT_APPLICABLE = {
  "C03": "not claimed as a check of its own: the cache side (Get/Put/Peek contracts, ownership hand-over) is decided under C14, including the known finding that FIFO.Get leaves a used block indexed, which is exactly the C03 failure (reader returns block 3's bytes for block 0; selftest/demos/C14_fifo_wrong_data_test.go.txt). The reader side (cacheSwap/cachePut/keep under read-ahead) was not put under contract.",
  "C05": "not claimed: the record codec (bam.Writer.Write against bam.Reader.Read) was not put under a byte-layout contract; only the decoding side is proved total (C11). No check was built.",
  "C09": "liveness of calls blocking on other goroutines and goroutine leaks: not expressible as per-function contracts (DESIGN.md section 6)",
- "C10": "not claimed: detection of truncation and corruption rests on CRC32/ISIZE checks inside compress/gzip (external) and on the BGZF reader's goroutines; the framing functions (readMember, expectedMemberSize, newBuffer) were not put under contract.",
  "C12": "inter-goroutine delivery order and WaitGroup durability: outside sequential per-function contracts (DESIGN.md section 6)",
  "C13": "not claimed: ChunkReader.Read and the chunk-limited bam.Reader depend on the position bookkeeping of bgzf.Reader (C02), which is not under contract; the clamp arithmetic alone was not built into a check.",
 }
